@@ -3,8 +3,6 @@ package c05
 
 import (
 	"fmt"
-	"net"
-	"net/netip"
 	"os"
 	"reflect"
 	"sort"
@@ -13,12 +11,10 @@ import (
 
 	codec "github.com/uhppoted/uhppote-core/encoding/UTO311-L0x"
 	"github.com/uhppoted/uhppote-core/messages"
-	"github.com/uhppoted/uhppote-core/types"
 	"pgregory.net/rapid"
 
-	"verif/harness/api"
 	"verif/harness/ev"
-	"verif/harness/gen"
+	"verif/harness/fv"
 	"verif/harness/rp"
 	"verif/harness/spec"
 	"verif/harness/zones"
@@ -33,43 +29,13 @@ func TestMain(m *testing.M) {
 	ev.Main(m, "C05")
 }
 
-// FV is a primitive, JSON-serialisable field value; the filler uses the parts relevant for the field type.
-type FV struct {
-	U    uint64 `json:"u,omitempty"`
-	Y    int    `json:"y,omitempty"`
-	M    int    `json:"m,omitempty"`
-	D    int    `json:"d,omitempty"`
-	H    int    `json:"h,omitempty"`
-	Mi   int    `json:"mi,omitempty"`
-	S    int    `json:"s,omitempty"`
-	Zero bool   `json:"zero,omitempty"`
-	Nil  bool   `json:"nil,omitempty"`
-}
-
 type rtCase struct {
-	Zone   string `json:"zone"`
-	Kind   string `json:"kind"` // request | response | event | event-v6.62
-	Code   byte   `json:"code"`
-	Fields []FV   `json:"fields"`
-	Noise  []byte `json:"noise"` // bytes written over the unused offsets before the second decode
+	Zone   string  `json:"zone"`
+	Kind   string  `json:"kind"` // request | response | event | event-v6.62
+	Code   byte    `json:"code"`
+	Fields []fv.FV `json:"fields"`
+	Noise  []byte  `json:"noise"` // bytes written over the unused offsets before the second decode
 }
-
-var (
-	tDate       = reflect.TypeOf(types.Date{})
-	tDateTime   = reflect.TypeOf(types.DateTime{})
-	tSysDate    = reflect.TypeOf(types.SystemDate{})
-	tSysTime    = reflect.TypeOf(types.SystemTime{})
-	tHHmm       = reflect.TypeOf(types.HHmm{})
-	tHHmmPtr    = reflect.TypeOf(&types.HHmm{})
-	tPIN        = reflect.TypeOf(types.PIN(0))
-	tIP         = reflect.TypeOf(net.IP{})
-	tAddrPort   = reflect.TypeOf(netip.AddrPort{})
-	tMAC        = reflect.TypeOf(types.MacAddress{})
-	tVersion    = reflect.TypeOf(types.Version(0))
-	tSerial     = reflect.TypeOf(types.SerialNumber(0))
-	tMsgType    = reflect.TypeOf(types.MsgType(0))
-	tSOM        = reflect.TypeOf(types.SOM(0))
-)
 
 // prototype returns a fresh zero value (pointer to struct) of the message type for (kind, code), using the dispatchers.
 func prototype(kind string, code byte) (any, spec.Layout, bool) {
@@ -98,202 +64,6 @@ func prototype(kind string, code byte) (any, spec.Layout, bool) {
 	return nil, spec.Layout{}, false
 }
 
-// leaves lists the settable leaf fields (embedded structs are flattened).
-func leaves(v reflect.Value) []reflect.Value {
-	var out []reflect.Value
-	for i := 0; i < v.NumField(); i++ {
-		f, t := v.Field(i), v.Type().Field(i)
-		if t.Anonymous && f.Kind() == reflect.Struct {
-			out = append(out, leaves(f)...)
-			continue
-		}
-		if t.Type == tMsgType || t.Type == tSOM {
-			continue
-		}
-		out = append(out, f)
-	}
-	return out
-}
-
-func genFV(t *rapid.T, typ reflect.Type, zone string) FV {
-	loc := zones.Loc(zone)
-	switch typ {
-	case tDate:
-		if rapid.IntRange(0, 7).Draw(t, "date.zero") == 0 {
-			return FV{Zero: true}
-		}
-		// days whose local midnight does not exist in this zone (DST starts at 00:00) - fully skipped days are exempt
-		if gaps := zones.MidnightGaps(zone, 1950, 2050); len(gaps) > 0 && rapid.IntRange(0, 3).Draw(t, "date.gapday") == 0 {
-			g := gaps[rapid.IntRange(0, len(gaps)-1).Draw(t, "date.gap")]
-			if zones.DayExists(loc, g.Y, g.M, g.D) {
-				return FV{Y: g.Y, M: g.M, D: g.D, S: 1}
-			}
-		}
-		c := gen.Civil(t, "date")
-		return FV{Y: c.Y, M: c.M, D: c.D}
-	case tDateTime:
-		if rapid.IntRange(0, 7).Draw(t, "datetime.zero") == 0 {
-			return FV{Zero: true}
-		}
-		for i := 0; ; i++ {
-			c := gen.Civil(t, "datetime")
-			fv := FV{Y: c.Y, M: c.M, D: c.D, H: rapid.IntRange(0, 23).Draw(t, "h"), Mi: rapid.IntRange(0, 59).Draw(t, "mi"), S: rapid.IntRange(0, 59).Draw(t, "s")}
-			if zones.CivilExists(loc, fv.Y, fv.M, fv.D, fv.H, fv.Mi, fv.S) || i > 5 {
-				if i > 5 {
-					fv.H = 12 // noon exists everywhere except on fully skipped days
-				}
-				return fv
-			}
-		}
-	case tSysDate:
-		// (the zero SystemDate is not in the judged domain: the statement names the zero date and date-time only)
-		y := rapid.IntRange(2000, 2068).Draw(t, "y")
-		m := rapid.IntRange(1, 12).Draw(t, "m")
-		return FV{Y: y, M: m, D: rapid.IntRange(1, spec.DaysIn(y, m)).Draw(t, "d")}
-	case tSysTime:
-		return FV{H: rapid.IntRange(0, 23).Draw(t, "h"), Mi: rapid.IntRange(0, 59).Draw(t, "mi"), S: rapid.IntRange(0, 59).Draw(t, "s")}
-	case tHHmm:
-		h := gen.HM(t, "hhmm")
-		return FV{H: h.H, Mi: h.M}
-	case tHHmmPtr:
-		if rapid.IntRange(0, 5).Draw(t, "ptr.nil") == 0 {
-			return FV{Nil: true}
-		}
-		h := gen.HM(t, "hhmm")
-		return FV{H: h.H, Mi: h.M}
-	case tPIN:
-		return FV{U: uint64(rapid.IntRange(0, 999999).Draw(t, "pin"))}
-	case tIP:
-		ip := gen.IPv4(t, "ip")
-		return FV{U: uint64(spec.LE32(ip[:]))}
-	case tAddrPort:
-		ip := gen.IPv4(t, "ip")
-		return FV{U: uint64(spec.LE32(ip[:])) | uint64(rapid.IntRange(0, 65535).Draw(t, "port"))<<32}
-	case tMAC:
-		return FV{U: rapid.Uint64Range(0, 1<<48-1).Draw(t, "mac")}
-	}
-	switch typ.Kind() {
-	case reflect.Bool:
-		return FV{U: uint64(rapid.IntRange(0, 1).Draw(t, "bool"))}
-	case reflect.Uint8:
-		return FV{U: uint64(gen.U8(t, "u8"))}
-	case reflect.Uint16:
-		return FV{U: uint64(rapid.IntRange(0, 65535).Draw(t, "u16"))}
-	case reflect.Uint32:
-		return FV{U: uint64(gen.U32(t, "u32"))}
-	}
-	panic(fmt.Sprintf("HARNESS: no generator for field type %v", typ))
-}
-
-func le4(u uint64) []byte { return []byte{byte(u), byte(u >> 8), byte(u >> 16), byte(u >> 24)} }
-
-func fill(f reflect.Value, fv FV) {
-	switch f.Type() {
-	case tDate:
-		if !fv.Zero {
-			f.Set(reflect.ValueOf(types.ToDate(fv.Y, time.Month(fv.M), fv.D)))
-		}
-		return
-	case tDateTime:
-		if !fv.Zero {
-			f.Set(reflect.ValueOf(types.DateTime(time.Date(fv.Y, time.Month(fv.M), fv.D, fv.H, fv.Mi, fv.S, 0, time.Local))))
-		}
-		return
-	case tSysDate:
-		if !fv.Zero {
-			f.Set(reflect.ValueOf(types.SystemDate(time.Date(fv.Y, time.Month(fv.M), fv.D, 0, 0, 0, 0, time.Local))))
-		}
-		return
-	case tSysTime:
-		f.Set(reflect.ValueOf(types.SystemTime(time.Date(0, 1, 1, fv.H, fv.Mi, fv.S, 0, time.Local))))
-		return
-	case tHHmm:
-		f.Set(reflect.ValueOf(types.NewHHmm(fv.H, fv.Mi)))
-		return
-	case tHHmmPtr:
-		if !fv.Nil {
-			h := types.NewHHmm(fv.H, fv.Mi)
-			f.Set(reflect.ValueOf(&h))
-		}
-		return
-	case tIP:
-		f.Set(reflect.ValueOf(net.IP(le4(fv.U))))
-		return
-	case tAddrPort:
-		b := le4(fv.U)
-		f.Set(reflect.ValueOf(netip.AddrPortFrom(netip.AddrFrom4([4]byte{b[0], b[1], b[2], b[3]}), uint16(fv.U>>32))))
-		return
-	case tMAC:
-		f.Set(reflect.ValueOf(types.MacAddress{byte(fv.U), byte(fv.U >> 8), byte(fv.U >> 16), byte(fv.U >> 24), byte(fv.U >> 32), byte(fv.U >> 40)}))
-		return
-	}
-	switch f.Kind() {
-	case reflect.Bool:
-		f.SetBool(fv.U == 1)
-	case reflect.Uint8, reflect.Uint16, reflect.Uint32:
-		f.SetUint(fv.U)
-	default:
-		panic(fmt.Sprintf("HARNESS: cannot fill field type %v", f.Type()))
-	}
-}
-
-// canon renders a leaf under the observable (civil-field) equality.
-func canon(f reflect.Value) string {
-	switch v := f.Interface().(type) {
-	case types.Date:
-		return "date:" + api.DateText(v)
-	case types.DateTime:
-		return "datetime:" + api.DateTimeText(v)
-	case types.SystemDate:
-		if v.IsZero() {
-			return "sysdate:"
-		}
-		y, m, d := time.Time(v).Date()
-		return fmt.Sprintf("sysdate:%04d-%02d-%02d", y, int(m), d)
-	case types.SystemTime:
-		h, mi, s := time.Time(v).Clock()
-		return fmt.Sprintf("systime:%02d:%02d:%02d", h, mi, s)
-	case types.HHmm:
-		return "hhmm:" + v.String()
-	case *types.HHmm:
-		if v == nil {
-			return "hhmm:00:00"
-		}
-		return "hhmm:" + v.String()
-	case net.IP:
-		return "ip:" + api.IPText(v)
-	case netip.AddrPort:
-		return "addrport:" + api.AddrPortText(v)
-	case types.MacAddress:
-		return "mac:" + api.MACText(v)
-	}
-	return fmt.Sprintf("%v:%v", f.Type().Name(), f.Interface())
-}
-
-func canonAll(v reflect.Value) []string {
-	var out []string
-	for _, f := range leaves(v) {
-		out = append(out, canon(f))
-	}
-	return out
-}
-
-func firstDiff(a, b []string) string {
-	for i := range a {
-		if i >= len(b) || a[i] != b[i] {
-			other := "<missing>"
-			if i < len(b) {
-				other = b[i]
-			}
-			return fmt.Sprintf("leaf %d: %s vs %s", i, a[i], other)
-		}
-	}
-	if len(a) != len(b) {
-		return "different number of leaves"
-	}
-	return ""
-}
-
 func try(f func()) (p any) {
 	defer func() { p = recover() }()
 	f()
@@ -312,22 +82,24 @@ func decideRT(c rtCase) (*rp.Fail, string, bool) {
 		}
 		v := reflect.ValueOf(proto).Elem()
 		typeName := v.Type().String()
-		ls := leaves(v)
+		ls := fv.Leaves(v)
 		if len(ls) != len(c.Fields) {
 			fail = rp.Failf("harness/fields", "%s has %d leaves, case has %d", typeName, len(ls), len(c.Fields))
 			return
 		}
 		for i, f := range ls {
-			fill(f, c.Fields[i])
+			fv.Fill(f, c.Fields[i])
 		}
-		before := canonAll(v)
-		// the generated civil values themselves (not what the library's constructors made of them)
+		before := fv.CanonAll(v)
+		// the generated primitive values themselves (not what the library's constructors made of them)
 		for i, f := range ls {
-			if f.Type() == tDate && !c.Fields[i].Zero {
-				if want := fmt.Sprintf("date:%04d-%02d-%02d", c.Fields[i].Y, c.Fields[i].M, c.Fields[i].D); before[i] != want {
-					fail = rp.Failf("types.ToDate/civil-date", "zone %s: ToDate(%d, %d, %d) reports %s", c.Zone, c.Fields[i].Y, c.Fields[i].M, c.Fields[i].D, before[i])
-					return
+			if want := fv.Want(f.Type(), c.Fields[i]); before[i] != want {
+				site := "harness/fill"
+				if f.Type() == fv.TDate {
+					site = "types.ToDate/civil-date"
 				}
+				fail = rp.Failf(site, "zone %s: field %d (%v) constructed from %+v reports %s, want %s", c.Zone, i, f.Type(), c.Fields[i], before[i], want)
+				return
 			}
 		}
 		var enc []byte
@@ -373,8 +145,8 @@ func decideRT(c rtCase) (*rp.Fail, string, bool) {
 			fail = rp.Failf("codec.Unmarshal/rejects-own-encoding", "%s in zone %s: decoding the encoding %x failed: %v", typeName, c.Zone, enc, err)
 			return
 		}
-		after := canonAll(dec)
-		if d := firstDiff(before, after); d != "" {
+		after := fv.CanonAll(dec)
+		if d := fv.FirstDiff(before, after); d != "" {
 			site := "roundtrip"
 			if isZeroDateDiff(d) {
 				site = "roundtrip-zero-datetime"
@@ -394,17 +166,19 @@ func decideRT(c rtCase) (*rp.Fail, string, bool) {
 			fail = rp.Failf("codec.Unmarshal/unused-bytes-rejected", "%s: decoding failed after writing noise into unused bytes: %v (%x)", typeName, err, noisy)
 			return
 		}
-		if d := firstDiff(before, canonAll(dec2)); d != "" {
+		if d := fv.FirstDiff(before, fv.CanonAll(dec2)); d != "" {
 			fail = rp.Failf("codec.Unmarshal/depends-on-unused-bytes", "%s: decoded value changed after writing noise into bytes that belong to no field: %s (%x)", typeName, d, noisy)
 			return
 		}
 		// UnmarshalAs agrees with Unmarshal
 		var as any
-		if p := try(func() { as, err = codec.UnmarshalAs(append([]byte(nil), enc...), reflect.New(v.Type()).Elem().Interface()) }); p != nil || err != nil {
+		if p := try(func() {
+			as, err = codec.UnmarshalAs(append([]byte(nil), enc...), reflect.New(v.Type()).Elem().Interface())
+		}); p != nil || err != nil {
 			fail = rp.Failf("codec.UnmarshalAs/error", "%s: UnmarshalAs failed on the encoding: %v %v", typeName, p, err)
 			return
 		}
-		if d := firstDiff(before, canonAll(reflect.ValueOf(as))); d != "" {
+		if d := fv.FirstDiff(before, fv.CanonAll(reflect.ValueOf(as))); d != "" {
 			fail = rp.Failf("codec.UnmarshalAs/roundtrip", "%s: UnmarshalAs(encode(v)) != v: %s", typeName, d)
 			return
 		}
@@ -424,7 +198,7 @@ func decideRT(c rtCase) (*rp.Fail, string, bool) {
 				fail = rp.Failf("messages.dispatch/wrong-type", "%s: dispatcher returned %T", typeName, m)
 				return
 			}
-			if d := firstDiff(before, canonAll(reflect.ValueOf(m).Elem())); d != "" {
+			if d := fv.FirstDiff(before, fv.CanonAll(reflect.ValueOf(m).Elem())); d != "" {
 				fail = rp.Failf("messages.dispatch/roundtrip", "%s: dispatcher decoded a different value: %s", typeName, d)
 				return
 			}
@@ -453,14 +227,14 @@ func checkRT(c rtCase) *rp.Fail {
 	if c.Zone != "UTC" {
 		ev.Class("zone/non-utc", 1)
 	}
-	for _, fv := range c.Fields {
-		if fv.Zero {
+	for _, x := range c.Fields {
+		if x.Zero {
 			ev.Class("value/zero-date-or-datetime", 1)
 			break
 		}
 	}
-	for _, fv := range c.Fields {
-		if fv.S == 1 && fv.H == 0 && fv.Mi == 0 && fv.Y != 0 {
+	for _, x := range c.Fields {
+		if x.Gap {
 			ev.Class("value/date-whose-local-midnight-does-not-exist", 1)
 			break
 		}
@@ -506,8 +280,8 @@ func genRT(t *rapid.T) rtCase {
 	zl := zoneList()
 	c := rtCase{Zone: zl[rapid.IntRange(0, len(zl)-1).Draw(t, "zone")], Kind: tg.kind, Code: tg.code}
 	proto, layout, _ := prototype(tg.kind, tg.code)
-	for _, f := range leaves(reflect.ValueOf(proto).Elem()) {
-		c.Fields = append(c.Fields, genFV(t, f.Type(), c.Zone))
+	for _, f := range fv.Leaves(reflect.ValueOf(proto).Elem()) {
+		c.Fields = append(c.Fields, fv.Gen(t, f.Type(), c.Zone))
 	}
 	c.Noise = make([]byte, len(layout.Unused()))
 	for i := range c.Noise {
@@ -529,20 +303,24 @@ func sweepTypesZones(yield func(rtCase) bool) {
 				idx++
 				proto, layout, _ := prototype(tg.kind, tg.code)
 				c := rtCase{Zone: z, Kind: tg.kind, Code: tg.code}
-				for i, f := range leaves(reflect.ValueOf(proto).Elem()) {
-					fv := FV{Zero: true, Nil: variant == 0}
-					if f.Type() == tSysDate {
-						fv = FV{Y: 2000, M: 1, D: 1}
+				for i, f := range fv.Leaves(reflect.ValueOf(proto).Elem()) {
+					x := fv.FV{Zero: true, Nil: variant == 0}
+					if f.Type() == fv.TSysDate {
+						x = fv.FV{Y: 2000, M: 1, D: 1}
 					}
 					if variant == 1 {
-						fv = FV{U: uint64(i%2) + uint64(i/2*2)*0x0101, Y: 2024, M: 6, D: 15, H: 12, Mi: 30, S: 45}
+						x = fv.FV{U: uint64(i%2) + uint64(i/2*2)*0x0101, Y: 2024, M: 6, D: 15, H: 12, Mi: 30, S: 45}
 						if f.Kind() == reflect.Bool {
-							fv.U = uint64(i % 2)
-						} else if f.Type() == tPIN {
-							fv.U = 123456
+							x.U = uint64(i % 2)
+						} else if f.Type() == fv.TPIN {
+							x.U = 123456
+						} else if f.Kind() == reflect.Uint8 {
+							x.U &= 0xff
+						} else if f.Kind() == reflect.Uint16 || f.Type() == fv.TVersion {
+							x.U &= 0xffff
 						}
 					}
-					c.Fields = append(c.Fields, fv)
+					c.Fields = append(c.Fields, x)
 				}
 				c.Noise = make([]byte, len(layout.Unused()))
 				for i := range c.Noise {
@@ -709,8 +487,8 @@ func FuzzRoundTrip(f *testing.F) {
 		if err := codec.Unmarshal(enc, out.Interface()); err != nil {
 			t.Fatalf("%T: re-encoding %x of decoded %x does not decode: %v", v, enc, b, err)
 		}
-		a, c := canonAll(reflect.ValueOf(v).Elem()), canonAll(out.Elem())
-		if d := firstDiff(a, c); d != "" {
+		a, c := fv.CanonAll(reflect.ValueOf(v).Elem()), fv.CanonAll(out.Elem())
+		if d := fv.FirstDiff(a, c); d != "" {
 			// values outside the in-domain range (PIN > 999999 fits 3 bytes; two-digit years) still round-trip; anything else is a violation
 			t.Fatalf("%T: decode(encode(decode(%x))) differs: %s", v, b, d)
 		}
